@@ -55,6 +55,7 @@ def run(ctx, progs):
     ctx.rule("ACC2", "assume_init_* operands: ACC1 helper result, or items[add_mod(start,i,N)] with i<size")
     ctx.rule("ACC2b", "a physical slot position add_mod(start, i, N) used to index/offset/swap storage needs i < size (outside the view functions)")
     ctx.rule("INV1", "stores to size/start: reviewed writers and value shapes")
+    ctx.rule("WHOLE1", "the backing array is filled as a whole only where the facts establish start == 0")
     ctx.rule("MOD1", "REQUIRES(N>0) never reaches a public entry")
     ctx.rule("FREE1", "slices_uninit_mut results flow only into initialising callees")
     ctx.rule("CTOR1", "constructors: header = empty, storage never read")
@@ -226,7 +227,46 @@ def _shape_start(f, b, i, e):
     return False, "value `%s` is neither 0 nor add_mod/sub_mod(_, _, N)" % mir.fmt(e, f)
 
 
+WHOLE_WRITERS = (
+    "circular_buffer::CircularBuffer::extend_from_slice::write_uninit_slice_cloned",
+    "<[core::mem::maybe_uninit::MaybeUninit<T>]>::write_clone_of_slice", "<[core::mem::maybe_uninit::MaybeUninit<T>]>::write_copy_of_slice",
+    "<[T]>::copy_from_slice", "<[T]>::clone_from_slice", "core::ptr::copy_nonoverlapping", "core::ptr::copy", "<[T]>::fill", "<[T]>::fill_with",
+)
+
+
+def whole1(ctx, prog, cfg, only=None):
+    """Filling the backing array as a whole (from physical slot 0) lays the elements out in array order: that is the
+    logical order only if `start` is 0 at that moment — decided by the facts at the call (a store `start = 0` that
+    reaches it), not assumed from what other functions may have left behind."""
+    n = 0
+    for f in prog.fns.values():
+        if only is not None and f.short not in only:
+            continue
+        if not f.has_mir or f.short in ("CircularBuffer::new", "CircularBuffer::boxed"):
+            continue
+        G = None
+        for b, t_ in f.calls(False):
+            if mir.callee_path(t_) not in WHOLE_WRITERS:
+                continue
+            a0 = mir.strip_casts(f.deep_simplify(f.call_args(b)[0]))
+            x = a0[1] if isinstance(a0, tuple) and a0[0] == "unsize" else a0
+            if not (isinstance(x, tuple) and x[0] == "ref" and isinstance(x[1], tuple) and x[1][0] == "place" and tuple(x[1][2]) == ("items",)):
+                continue
+            base = x[1][1]
+            n += 1
+            if G is None:
+                G = guards.Guards(f)
+            st = ("load", base, ("start",), f.version_at(b, len(f.blocks[b]["stmts"]), ("M", "start")))
+            Z = G.closure(b, extra_terms=[st])
+            ctx.check(Z.eq0(st), "WHOLE1", f.short, "whole-array fill needs start == 0", short_loc(f, b),
+                      "`%s` fills the whole backing array from slot 0 (%s) where nothing establishes `start == 0`: the elements come out "
+                      "rotated by `start`" % (f.short, (mir.callee_path(t_) or "").split("::")[-1]),
+                      "a store `start = 0` reaches the call", cfg)
+    return n
+
+
 def inv1(ctx, prog, cfg, only=None):
+    whole1(ctx, prog, cfg, only)
     writers = {"size": {}, "start": {}}
     for f in prog.fns.values():
         if only is not None and f.short not in only:
